@@ -171,6 +171,11 @@ func (vt *Model) ich(ps int) {
 					Grapheme: " ",
 					Width:    1,
 				},
+				// like every erased cell, an inserted blank takes
+				// the current background
+				Style: vaxis.Style{
+					Background: vt.cursor.Style.Background,
+				},
 			},
 		}
 	}
